@@ -333,7 +333,17 @@ func c10scanToEndOfPrefix(c *an.Ctx) {
 	}
 	r.AddSites(len(early))
 	if len(early) == 0 {
-		r.Fail(f.Name+": end of range", c.P.Pos(f.Body.Pos()), "the row loop has no successful exit at the end of the prefix range any more")
+		// the loop may end with a `break` at the end of the prefix range instead of a return
+		has := false
+		for _, a := range f.CondAtoms() {
+			if strings.HasPrefix(a, "bytes.HasPrefix(") {
+				has = true
+			}
+		}
+		r.AddSites(1)
+		if !has {
+			r.Fail(f.Name+": end of range", c.P.Pos(f.Body.Pos()), "the row loop no longer tests whether the row is still inside the filter's key prefix")
+		}
 		return
 	}
 	f.Guarded(r, &an.Sites{F: f, Desc: "return nil inside the row loop", List: early}, "the scan ends successfully only at the end of the key prefix", an.AtomLike(`^bytes\.HasPrefix\(.*\)$`, false))
